@@ -7,6 +7,7 @@
 //!   key sequence of the output = key sequence of the first k rows of the specification's sorted
 //!   permutation  /\  output is a sub-bag of the input (row ids make rows distinct).
 use crate::val::*;
+use arrow::array::Array;
 use arrow::compute::SortOptions;
 use arrow::datatypes::SchemaRef;
 use arrow::record_batch::RecordBatch;
@@ -139,16 +140,18 @@ impl Variant {
 fn supports(c: &Case, op: &str) -> bool {
     let nk = c.keys.len();
     match op {
-        "sort" | "sort_pp_spm" | "spm" | "sorted_input" | "sort_coalesced_batches" => true,
+        // TopK asserts k > 0 (LIMIT 0 never reaches the operator: the optimizer plans an empty relation)
+        "sort" | "sort_pp_spm" | "sort_coalesced_batches" => c.fetch != 0,
+        "spm" | "sorted_input" => true,
         "partial" => nk >= 2,
-        "topk_prefix" => nk >= 2 && c.fetch >= 0,
+        "topk_prefix" => nk >= 2 && c.fetch >= 1,
         "ptk_rownumber" | "ptk_rank" | "ptk_denserank" => nk >= 2 && c.ptk_k >= 1,
         _ => false,
     }
 }
 
-const MEMS: [usize; 7] = [0, 0, 0, 1500, 3000, 6000, 12000];
-const MEMS_BIG: [usize; 7] = [0, 0, 5000, 9000, 17000, 30000, 60000];
+/// memory budgets (bytes) tried by the spill lane; x000 values use FairSpillPool, the others GreedyMemoryPool
+const MEM_LADDER: [usize; 10] = [1501, 2000, 3001, 4000, 6001, 8000, 12001, 16000, 24001, 48000];
 
 fn variants(c: &Case, seed: u64, picks_n: usize) -> Vec<Variant> {
     let mut out = vec![];
@@ -160,14 +163,21 @@ fn variants(c: &Case, seed: u64, picks_n: usize) -> Vec<Variant> {
         let n = if matches!(*op, "sort" | "sort_pp_spm") { picks_n * 2 } else { picks_n };
         for vi in 0..n {
             let h = mix(h0 ^ mix((oi as u64) << 8 | vi as u64));
-            let spills = matches!(*op, "sort" | "sort_pp_spm" | "sort_coalesced_batches");
-            let mems = if c.rows.len() > 10 { &MEMS_BIG } else { &MEMS };
+            let spills = matches!(*op, "sort" | "sort_pp_spm" | "sort_coalesced_batches") && c.fetch < 0;
+            // half of the no-fetch sorts run under a tight budget drawn from the ladder
+            let big = c.rows.len() > 10;
+            let mem = if spills && (big || (h >> 8) % 2 == 0) {
+                // budgets measured to produce 1..40 spills on these inputs (lower ones mostly exhaust)
+                if big { MEM_LADDER[2 + ((h >> 9) % 7) as usize] } else { MEM_LADDER[2 + ((h >> 9) % 5) as usize] }
+            } else {
+                0
+            };
             out.push(Variant {
                 op,
                 // first picks walk the batch-size grid deterministically, the rest are seeded
                 inb: [1usize, 2, 8192, 3][if vi < 3 { vi } else { (h % 4) as usize }],
                 outb: [1usize, 2, 8192, 3][((h >> 4) % 4) as usize],
-                mem: if spills { mems[((h >> 8) % 7) as usize] } else { 0 },
+                mem,
                 spill_res: [0usize, 256, 1024][((h >> 12) % 3) as usize],
                 no_in_place: (h >> 16) % 2 == 0,
                 tysel: h >> 20,
@@ -212,6 +222,25 @@ fn col_types(c: &Case, v: &Variant) -> Vec<ColTy> {
     t
 }
 
+/// wide payload derived from the row id (makes batches big enough for memory budgets to bite)
+fn pad_of(id: i64) -> String {
+    format!("p{id}_{}", "x".repeat(96))
+}
+
+fn with_pad(schema: &SchemaRef, b: RecordBatch) -> RecordBatch {
+    let ids = b.column(b.num_columns() - 1).as_any().downcast_ref::<arrow::array::Int32Array>().expect("id column").clone();
+    let pad: arrow::array::StringArray = ids.iter().map(|i| i.map(|i| pad_of(i as i64))).collect();
+    let mut cols = b.columns().to_vec();
+    cols.push(Arc::new(pad));
+    RecordBatch::try_new(schema.clone(), cols).expect("pad batch")
+}
+
+fn padded_schema(s: &SchemaRef) -> SchemaRef {
+    let mut f: Vec<arrow::datatypes::Field> = s.fields().iter().map(|f| f.as_ref().clone()).collect();
+    f.push(arrow::datatypes::Field::new("pad", arrow::datatypes::DataType::Utf8, true));
+    Arc::new(arrow::datatypes::Schema::new(f))
+}
+
 fn schema(c: &Case, tys: &[ColTy]) -> SchemaRef {
     let names: Vec<String> = (0..tys.len()).map(|j| if j + 1 == tys.len() { "id".to_string() } else { format!("k{}", j + 1) }).collect();
     let names_ref: Vec<&str> = names.iter().map(|s| s.as_str()).collect();
@@ -235,8 +264,10 @@ fn mem_exec(
     inb: usize,
     sort: Option<LexOrdering>,
 ) -> Result<Arc<dyn ExecutionPlan>, String> {
-    let batches: Vec<Vec<RecordBatch>> = parts.iter().map(|p| chunk(schema, tys, p, inb)).collect();
-    let e = TestMemoryExec::try_new(&batches, schema.clone(), None).map_err(|e| format!("mem exec: {e}"))?;
+    let ps = padded_schema(schema);
+    let batches: Vec<Vec<RecordBatch>> =
+        parts.iter().map(|p| chunk(schema, tys, p, inb).into_iter().map(|b| with_pad(&ps, b)).collect()).collect();
+    let e = TestMemoryExec::try_new(&batches, ps.clone(), None).map_err(|e| format!("mem exec: {e}"))?;
     let e = match sort {
         Some(o) => e.try_with_sort_information(vec![o]).map_err(|e| format!("sort info: {e}"))?,
         None => e,
@@ -275,13 +306,14 @@ fn build(c: &Case, v: &Variant) -> Result<Built, String> {
             // uneven batches: first batch holds half of the rows, the rest arrive one by one
             let half = c.rows.len() / 2;
             let tys2 = tys.clone();
+            let ps = padded_schema(&sch);
             let mut batches = vec![];
             if half > 0 {
-                batches.push(build_batch(&sch, &tys2, &c.rows[..half]));
+                batches.push(with_pad(&ps, build_batch(&sch, &tys2, &c.rows[..half])));
             }
-            batches.extend(chunk(&sch, &tys2, &c.rows[half..], 1));
-            batches.push(RecordBatch::new_empty(sch.clone()));
-            let e = TestMemoryExec::try_new_exec(&[batches], sch.clone(), None).map_err(|e| e.to_string())?;
+            batches.extend(chunk(&sch, &tys2, &c.rows[half..], 1).into_iter().map(|b| with_pad(&ps, b)));
+            batches.push(RecordBatch::new_empty(ps.clone()));
+            let e = TestMemoryExec::try_new_exec(&[batches], ps.clone(), None).map_err(|e| e.to_string())?;
             let mut s = SortExec::new(ord, e);
             if fetch.is_some() {
                 s = s.with_fetch(fetch);
@@ -365,6 +397,9 @@ fn task_ctx(v: &Variant) -> Result<Arc<TaskContext>, String> {
 }
 
 fn spill_count(plan: &Arc<dyn ExecutionPlan>) -> usize {
+    if plan.children().is_empty() {
+        return 0; // the in-memory test source does not implement metrics()
+    }
     let own = plan.metrics().and_then(|m| m.spill_count()).unwrap_or(0);
     own + plan.children().iter().map(|c| spill_count(c)).sum::<usize>()
 }
@@ -419,6 +454,25 @@ fn run_variant(rt: &tokio::runtime::Runtime, c: &Case, v: &Variant) -> Outcome {
         }
         Ok(Ok(b)) => b,
     };
+    // the pad column must still belong to its row id; then drop it
+    let mut projected = vec![];
+    for b in &batches {
+        let n = b.num_columns();
+        let ids = b.column(n - 2).as_any().downcast_ref::<arrow::array::Int32Array>();
+        let pads = b.column(n - 1).as_any().downcast_ref::<arrow::array::StringArray>();
+        match (ids, pads) {
+            (Some(ids), Some(pads)) => {
+                for i in 0..b.num_rows() {
+                    if pads.is_null(i) || ids.is_null(i) || pads.value(i) != pad_of(ids.value(i) as i64) {
+                        return Outcome::Violation("payload column does not belong to its row (columns permuted differently)".to_string(), Value::Null);
+                    }
+                }
+            }
+            _ => return Outcome::Violation(format!("unexpected output schema {:?}", b.schema()), Value::Null),
+        }
+        projected.push(b.project(&(0..n - 1).collect::<Vec<_>>()).expect("project"));
+    }
+    let batches = projected;
     let rows = match decode_batches(&batches) {
         Ok(r) => r,
         Err(e) => return Outcome::Violation(format!("undecodable output: {e}"), Value::Null),
@@ -486,6 +540,9 @@ pub fn main() {
                         match run_variant(&rt, c, v) {
                             Outcome::Ok { spills } => {
                                 *local.entry("ok".into()).or_default() += 1;
+                                if std::env::var("VOPS_LOG").is_ok() {
+                                    eprintln!("LOG n={} {} spills={}", c.rows.len(), v.name(), spills);
+                                }
                                 let b = match spills {
                                     0 => "0",
                                     1 => "1",
@@ -510,7 +567,12 @@ pub fn main() {
                                     local_distinct.push(h.finish());
                                 }
                             }
-                            Outcome::Exhausted => *local.entry("resources_exhausted_accepted".into()).or_default() += 1,
+                            Outcome::Exhausted => {
+                                if std::env::var("VOPS_LOG").is_ok() {
+                                    eprintln!("LOG n={} {} exhausted", c.rows.len(), v.name());
+                                }
+                                *local.entry("resources_exhausted_accepted".into()).or_default() += 1
+                            }
                             Outcome::Violation(msg, got) => {
                                 let mut case = c.raw.clone();
                                 case["idx"] = json!(c.idx);
